@@ -100,11 +100,19 @@ func (p *parser) parseMessage() (ok bool) {
 		if !ok {
 			return false
 		}
+		if p.pos != len(p.input) {
+			// bytes left over after the data item
+			return false
+		}
 		p.msg = ast.NewHSMSDataMessage("", stream, function, waitBit, "H<->E", dataItem, sessionID, systemBytes)
 		return true
 
 	case sTypeSelectReq, sTypeSelectRsp, sTypeDeselectReq, sTypeDeselectRsp,
 		sTypeLinktestReq, sTypeLinktestRsp, sTypeRejectReq, sTypeSeparateReq:
+		if p.msgLength != 10 {
+			// a control message consists of the header only
+			return false
+		}
 		p.msg = ast.NewHSMSControlMessage(headerBytes)
 		return true
 
